@@ -536,11 +536,34 @@ def family_job(arg):
             "depth_hist": R.depth_hist, "counts": R.counts, "viol": R.viol}
 
 
+def run_corpus(chk):
+    """Former finding, now a regression case: BV operators whose payload needs the width, built
+    over an ITE chain (then-branch) deeper than the recursion limit (fnode.bv_width)."""
+    from pysmt.environment import Environment
+    env = Environment()
+    m = env.formula_manager
+    bv8 = env.type_manager.BVType(8)
+    from pysmt.typing import BOOL
+    x, b, c = m.Symbol("b0", bv8), m.Symbol("b", bv8), m.Symbol("c", BOOL)
+    for _ in range(3000):
+        x = m.Ite(c, x, b)
+    for nm, fn in [("BVNeg", lambda: m.BVNeg(x)), ("BVNot", lambda: m.BVNot(x)), ("BVAdd", lambda: m.BVAdd(x, x)),
+                   ("BVExtract", lambda: m.BVExtract(x, 0, 3)), ("BVZExt", lambda: m.BVZExt(x, 3)), ("bv_width", lambda: x.bv_width()),
+                   ("simplify(BVNeg)", lambda: env.simplifier.simplify(m.BVNeg(x)))]:
+        chk.count(("corpus", nm))
+        try:
+            fn()
+        except RecursionError:
+            chk.violation({"kind": "input", "what": "regression of a repaired defect: %s over an ITE chain of depth 3000 raises RecursionError" % nm,
+                           "repro": "x=b0; for i in range(3000): x=Ite(c,x,b); %s(x)" % nm}, key="recursion:fnode.bv_width:ite-then-chain")
+
+
 def run(tier, only=None):
     chk = lib.Check("C20", tier)
     rnd = random.Random(chk.seed)
     assert sys.getrecursionlimit() == 1000, "C20 must run under the default recursion limit"
     ok = chk.prove()
+    run_corpus(chk)
     names = sorted(_families())
     if only:
         names = [x for x in names if x in only]
